@@ -30,10 +30,7 @@ def main():
     meta = {"id": sid, "property": prop, "needs": needs, "ran": []}
     try:
         d = os.path.join(tmp, "repo")
-        os.makedirs(d)
-        for f in os.listdir("/repo"):
-            if f.endswith(".go") or f in ("go.mod", "go.sum"):
-                shutil.copy(os.path.join("/repo", f), d)
+        shutil.copytree("/repo", d, ignore=shutil.ignore_patterns(".git", "*.md", "LICENSE"), symlinks=True)
         sh(["git", "init", "-q", "."], d)
         demoname = os.path.basename(demo)
         # 1. demo passes without the patch
